@@ -245,6 +245,42 @@ func rulesC12(c *Ctx) {
 			}
 		}
 		c.Check(okWrap, "streamable:body-limit-applied", sh, g.Node(wrap), "with a positive MaxRequestBodyBytes every path to the handlers wraps the body in http.MaxBytesReader first")
+		// the limit is positive by default: the constructor replaces 0 by DefaultMaxRequestBodyBytes on every path, also when
+		// it was given no options at all (a nil *StreamableHTTPOptions must not mean "unlimited")
+		nh := c.Fn(pM, "", "NewStreamableHTTPHandler")
+		ng := nh.Graph()
+		maxF := c.Field(pM, "StreamableHTTPOptions", "MaxRequestBodyBytes")
+		def := c.Obj(pM, "DefaultMaxRequestBodyBytes")
+		okDef := false
+		for _, w := range Writes(nh.Body, false) {
+			if !nh.IsField(w.LHS, maxF) || w.RHS == nil || nh.ObjOf(w.RHS) != def {
+				continue
+			}
+			wv := ng.VertexOf(w.Stmt)
+			only := true
+			nz := false
+			for _, a := range ng.GuardsAt(wv) {
+				if isCompound(a.E) {
+					continue
+				}
+				if x, y, op, isCmp := binaryCmp(a.E); isCmp && op == token.EQL && a.Val && nh.IsField(x, maxF) {
+					if z, isZ := nh.ConstInt(y); isZ && z == 0 {
+						nz = true
+						continue
+					}
+				}
+				only = false
+			}
+			// the test itself is reached on every path
+			reached := false
+			for _, cv := range ng.condVertices() {
+				if x, _, _, isCmp := binaryCmp(ng.Node(cv - 1).(ast.Expr)); isCmp && nh.IsField(x, maxF) {
+					reached, _ = ng.MustPass(ng.Entry, ng.Exits, func(v int) bool { return v == cv-1 })
+				}
+			}
+			okDef = only && nz && reached
+		}
+		c.Check(okDef, "streamable:body-limit-default", nh, nil, "NewStreamableHTTPHandler sets MaxRequestBodyBytes = DefaultMaxRequestBodyBytes whenever it is 0, on every path and on no other condition")
 
 		// --- content type / accept gates
 		for _, name := range []string{"serveStateless", "serveStatefulPOST"} {
@@ -586,6 +622,8 @@ func rulesC12(c *Ctx) {
 			c.Check(fresh, "collectParamHeaderAnnotations:fresh-path", cp, nil, "each binding's path is a freshly allocated slice")
 		}
 	})
+
+	c.Import("R-C12-6", "the client derives the Mcp-Param-* headers of a tools/call from the tool definitions it has cached: a list_changed notification invalidates that cache before the user's handler runs, so definitions fetched from within the handler are the ones later calls use", "C18", "R-C18-5", func(k string) bool { return strings.HasPrefix(k, "callToolChangedHandler") })
 
 	c.Rule("R-C12-5", "the client puts the per-request metadata (from which the mirrored headers are derived and which the server's gate demands) on every request it sends on the 2026-07-28 protocol: under usesNewProtocol() no handleSend is reachable without injectRequestMeta, except for a closed table of methods", func() {
 		hs := c.FnObj(pM, "", "handleSend")
